@@ -29,7 +29,7 @@ THEOREMS = ['C19_join_suffix_confined', 'C19_no_symlink_followed', 'C19_join_suf
             'C19_cache_file_confined', 'C19_rejects_escapes', 'C19_valid_ids_are_plain_names', 'C19_server_ids_valid',
             'C19_jobs_disjoint', 'C19_prepare_fresh', 'C19_prepare_guard', 'C19_started_job_root_fresh', 'C19_build_names_injective', 'C19_build_roots_not_nested',
             'C19_toolchain_readonly_by_construction', 'C19_job_view_independent_of_history',
-            'C19_components_join']
+            'C19_docker_pool_only_additions', 'C19_docker_removes_added_only', 'C19_components_join']
 ASSUMPTIONS = [
     'PARTIAL: bubblewrap is not available in the sandbox; the job itself is replaced by a stand-in that is confined to '
     'its root by construction. What is covered is everything the SERVER does outside the sandbox: directory creation, '
@@ -337,6 +337,32 @@ def gen_fs_job(rng, real, pool, symlinks=False):
 SENTINELS = [b'secret', b'passwd', b'etc/passwd', b'srv/secret']
 
 
+def gen_climb_job(rng, real):
+    """a symlink DEEP inside the job root (from the inputs archive or made by the compile; absolute and relative
+    targets) and cwd / output paths that pass through it and go on with k '..' components: wherever the link leads,
+    '..' must stop at the job root.  Five levels above the job root lie the server's `secret`, `etc/passwd`, `srv/`."""
+    depth = rng.range(1, 8)
+    dirs = [rng.choice([b'a', b'b', b'c', b'd', b'work', b'in_d']) for _ in range(depth)]
+    link = b'/'.join(dirs + [b'up'])
+    tgt = rng.choice([b'/', b'/', b'/tc_bin', b'/tc_lib', b'/' + dirs[0], b'.', b'..', b'../' * rng.range(1, depth + 2), b'/../..',
+                      b'/' + b'/'.join(dirs[:rng.range(1, depth)])])
+    inputs, writes = [], []
+    if rng.chance(2, 3):
+        inputs.append([b'symlink', link, tgt])
+    else:
+        writes.append([b'symlink', b'/' + link, tgt])
+    cwd = rng.choice([b'/', b'/' + dirs[0], b'/' + link, b'/' + link + b'/' + b'../' * rng.range(1, depth + 3) + b'x'])
+    rel = link if cwd == b'/' else (b'/'.join(dirs[1:] + [b'up']) if cwd == b'/' + dirs[0] else b'/' + link)
+    outs = []
+    for _ in range(rng.range(1, 3)):
+        k = rng.range(0, depth + 4)
+        tail = rng.choice(SENTINELS + [b'newdir/x.o', b'upper/x', b'x.o', b'toolchains', b'tc_bin/tool'])
+        outs.append(rel + b'/' + b'../' * k + tail)
+    if rng.chance(1, 3):
+        writes.append([b'file', b'/x.o', b'OWN'])
+    return [b'job', real, 1, 1, cwd, outs, inputs, writes]
+
+
 def gen_replace_job(rng, real):
     """the compile itself replaces its working directory, or an ancestor of it, by a symlink and the (mostly
     relative) outputs are named below it"""
@@ -424,6 +450,8 @@ def gen_fs(rng, tier, symlinks=False):
         jobs = [gen_fs_job(rng, real, pool, symlinks) for _ in range(rng.weighted([(1, 3), (2, 3), (3, 2)]))]
         if symlinks and rng.chance(1, 3):
             jobs.insert(rng.below(len(jobs) + 1), gen_replace_job(rng, real))
+        if symlinks and rng.chance(1, 3):
+            jobs.insert(rng.below(len(jobs) + 1), gen_climb_job(rng, real))
         out.append(jobs)
     return out
 
@@ -806,6 +834,168 @@ def neighbours_fs(case):
             yield case[:i] + [j2] + case[i + 1:]
 
 
+def neighbours_fs_sym(case):
+    """around a disagreeing case with symlinks: the same links, moved deeper, with outputs that go through them and
+    climb with k '..' towards the server's own files"""
+    for i, job in enumerate(case):
+        links = [m for m in job[6] + job[7] if m[0] in (b'symlink', b'replace')]
+        for m in links[:2]:
+            for deep in (b'', b'a/b/c/d/', b'work/a/b/c/d/e/f/'):
+                where = deep + m[1].lstrip(b'/')
+                for tgt in (m[2], b'/'):
+                    for k in (1, 2, 3, 5, 6, 7, 8, 9, 12):
+                        for tail in (b'secret', b'etc/passwd', b'newdir/x.o'):
+                            j2 = list(job)
+                            j2[4] = b'/'
+                            j2[6] = [[b'symlink', where, tgt]]
+                            j2[7] = []
+                            j2[5] = [where + b'/' + b'../' * k + tail]
+                            yield case[:i] + [j2] + case[i + 1:]
+    yield from neighbours_fs(case)
+
+
+# ---------------------------------------------------------------- leg docker: DockerBuilder::clean_container
+
+def docker_supported():
+    """the hook leg `docker` (C19-hook.diff) may not be merged yet"""
+    if 'docker' not in _real:
+        try:
+            p = subprocess.run([pipeline.repo_bin('sccache-dist'), '__verif_paths', 'docker_probe'], stdin=subprocess.DEVNULL,
+                               stdout=subprocess.PIPE, timeout=60)
+            _real['docker'] = p.stdout.decode().startswith('docker leg')
+        except Exception:
+            _real['docker'] = False
+    return _real['docker']
+
+
+D_DIRS = [b'/bin', b'/home', b'/home/u', b'/usr', b'/usr/lib', b'/tmp', b'/home/u/obj', b'/etc']
+D_FILES = [b'/bin/cc', b'/bin/ld', b'/usr/lib/a.so', b'/etc/passwd', b'/bin/cc1']       # files of the toolchain image
+D_NEW = [b'/bin/cc.orig', b'/bin/cc-real', b'/bin/cc2', b'/bin/cc/x', b'/bin/c', b'/home/u/out.o', b'/home/u/obj/a.o', b'/homer', b'/home/u2',
+         b'/tmp/x', b'/tmp/x/y', b'/tmpx', b'/usr/lib/a.so.1', b'/usr/lib/a.so/b', b'/a b', '/é'.encode(), b'/usr/libexec', b'/etc/passwd-',
+         b'/etc/passwd.d/x', b'/bin/ld.gold']
+
+
+def gen_docker(rng, tier):
+    if not docker_supported():
+        return []
+    n = 30000 if tier == 'thorough' else 2500
+    out = []
+    for _ in range(n):
+        lines = {}
+        kind = rng.weighted([('ordinary', 5), ('tamper', 4), ('odd', 1)])
+        for _ in range(rng.range(1, 5)):
+            p = rng.choice(D_NEW)
+            lines[p] = b'A'
+            # docker lists the parents of an added entry as changed
+            if rng.chance(1, 3):
+                par = p.rsplit(b'/', 1)[0]
+                if par in D_DIRS:
+                    lines[par] = b'C'
+        if kind == 'tamper':
+            for _ in range(rng.range(1, 2)):
+                f = rng.choice(D_FILES)
+                lines[f] = rng.weighted([(b'C', 4), (b'D', 2)])
+                if rng.chance(2, 3):
+                    # a new path whose NAME merely extends the file's name, right behind it in the listing
+                    lines[f + rng.choice([b'.orig', b'-real', b'2', b'~', b'.d/x', b'/x'])] = b'A'
+                if rng.chance(1, 2):
+                    lines[f.rsplit(b'/', 1)[0]] = b'C'
+        if rng.chance(1, 4):
+            lines[b'/tmp'] = rng.weighted([(b'C', 5), (b'A', 1), (b'D', 1)])
+        ls = [t + b' ' + p for p, t in sorted(lines.items())]
+        if kind == 'odd':
+            ls.insert(rng.below(len(ls) + 1), rng.choice([b'A', b'X /p', b'A  /two', b'C', b'A /p q r', b'AA /x', b'a /x']))
+            if rng.chance(1, 2):
+                ls = rng.shuffle(ls)
+            ls = [l for l in ls if l]
+            if ls and (ls[0][:1].isspace() or ls[-1][-1:].isspace()):
+                continue
+        out.append(ls)
+    return out
+
+
+def mon_docker(case, out):
+    """the property: a container whose toolchain FILES were changed or deleted, or that still holds something a job
+    added, is not handed to the next job"""
+    vs = []
+    if out and out[0] in (b'env_unsupported', b'unknown_leg'):
+        return []      # unknown_leg: the hook leg is not in this tree yet (C19-hook.diff)
+    if not isinstance(out, list) or len(out) != 3 or out[0][:1] != [b'rms']:
+        return ['malformed implementation output %r' % (out,)]
+    ok = out[1][1]
+    if ok == b'panic':
+        return ['clean_container panicked']
+    if ok == 1:
+        for l in out[2][1:]:
+            t, _, p = l.partition(b' ')
+            if t == b'A' and p != b'/tmp':
+                vs.append('container goes back into the pool although %r, added by the job, is still in it' % p)
+            elif t in (b'C', b'D') and p in D_FILES:
+                vs.append('container goes back into the pool although the job %s the toolchain file %r (diff %r): the next job of '
+                          'this toolchain gets the altered toolchain' % ('changed' if t == b'C' else 'deleted', p, case))
+            elif t not in (b'A', b'C', b'D'):
+                vs.append('container goes back into the pool with an unreadable diff line %r' % l)
+    for p in out[0][1:]:
+        if p in D_FILES or p in D_DIRS:
+            vs.append('clean_container removed %r, which belongs to the toolchain image' % p)
+    return vs
+
+
+def stats_docker(case, out):
+    try:
+        return ['ok=%s' % out[1][1], 'lines=%d' % min(len(case), 8), 'rms=%d' % min(len(out[0]) - 1, 5)]
+    except Exception:
+        return []
+
+
+def shrink_docker(case):
+    for i in range(len(case)):
+        yield case[:i] + case[i + 1:]
+
+
+def neighbours_docker(case):
+    for f in D_FILES:
+        for ext in (b'.orig', b'2', b'/x'):
+            for par in ([], [b'C ' + f.rsplit(b'/', 1)[0]]):
+                yield par + [b'C ' + f, b'A ' + f + ext]
+                yield par + [b'D ' + f, b'A ' + f + ext]
+
+
+# the text of clean_container the model (Model/C19Docker.v) was transcribed from: until the hook leg `docker` can
+# run the real function, a change of this text is all that ties the model to the code
+CLEAN_CONTAINER_SHA = '6e51b8a25243d876bab76c380cfc764d0475651345e9e11895b90c011afd2956'
+
+
+def _clean_container_text():
+    import hashlib
+    import re
+    src = open(os.path.join(pipeline.REPO, 'src/bin/sccache-dist/build.rs'), encoding='utf-8').read()
+    i = src.index('fn clean_container(&self, cid: &str) -> Result<()> {')
+    depth = 0
+    j = src.index('{', i)
+    for k in range(j, len(src)):
+        if src[k] == '{':
+            depth += 1
+        elif src[k] == '}':
+            depth -= 1
+            if depth == 0:
+                break
+    body = src[i:k + 1]
+    body = re.sub(r'//[^\n]*', '', body)
+    body = re.sub(r'\s+', ' ', body).strip()
+    return body, hashlib.sha256(body.encode()).hexdigest()
+
+
+def translate(rep):
+    body, h = _clean_container_text()
+    if docker_supported():
+        rep.notes.append('clean_container: compared with the model by running it (leg docker)')
+        return
+    rep.oblige('transcription:DockerBuilder::clean_container', h == CLEAN_CONTAINER_SHA,
+               'the hook leg `docker` is not in this tree, so the model of clean_container is tied to the source text only; '
+               'sha256 of the comment- and space-normalised function: %s (model transcribed from %s)' % (h, CLEAN_CONTAINER_SHA))
+
+
 def extra(rep, known):
     if not fs_supported():
         rep.notes.append('fs / fs_sym legs NOT RUN: the hooked sccache-dist cannot set up its private mount namespace / overlay '
@@ -814,7 +1004,13 @@ def extra(rep, known):
 
 def legs(tier):
     env = impl_env()
-    return [
+    docker = [Leg('docker', gen_docker, monitor=mon_docker, compare=lambda m, i: i == '(unknown_leg)' or m == i, shrink=shrink_docker, neighbours=neighbours_docker, stats=stats_docker,
+                  impl_env=env, nontrivial=lambda c, o: any(l[:1] in (b'C', b'D') for l in c),
+                  rule='`docker diff` listings of a used container over a toolchain image (files /bin/cc, /bin/ld, ... and '
+                       'directories): additions with and without their parents listed as changed, changed / deleted toolchain '
+                       'files with and without a new path whose name extends theirs right behind them, /tmp lines, malformed and '
+                       'unsorted listings; non-trivial = the listing has a C or D line')]
+    return docker + [
         Leg('calc', gen_calc, monitor=mon_calc, nontrivial=nontrivial_calc, shrink=shrink_calc, neighbours=neighbours_calc,
             stats=stats_calc, impl_env=env,
             rule='PRNG strings over a path alphabet (absolute, relative, many "..", ".", "//", empty, NUL, non-UTF-8, 300-byte '
@@ -826,7 +1022,7 @@ def legs(tier):
                  'toolchain (3/4), invalid ids, wrong hex id; adversarial cwd / outputs / archive member names / job writes; '
                  'non-trivial = at least one job reached handle_run_job'),
         Leg('fs_sym', lambda rng, tier: gen_fs(rng, tier, True), monitor=mon_fs, nontrivial=nontrivial_fs, shrink=shrink_fs,
-            stats=stats_fs, compare=compare_fs, impl_env=env, model_leg='fs', impl_args=['fs'],
+            neighbours=neighbours_fs_sym, stats=stats_fs, compare=compare_fs, impl_env=env, model_leg='fs', impl_args=['fs'],
             rule='as fs, every case with a symlink unpacked from the inputs archive or created by the job, requested as / below '
                  'cwd and outputs; 1/3 of the cases with a job whose compile replaces its cwd or an ancestor by a symlink '
                  '(targets: the server\'s scratch root, its etc/ and srv/, /etc, /, inside the root) and names relative outputs below it'),
